@@ -27,7 +27,8 @@ def translate():
     # locate the branch that fits
     fit_if = None
     for node in ast.walk(fn):
-        if isinstance(node, ast.If) and any(_ns(s) == "self.clusterer.fit(u,weights_trimmed)" for s in node.body):
+        if isinstance(node, ast.If) and any(_ns(s) == "self.clusterer.fit(u,weights_trimmed)" for s in node.body) \
+                and any(_ns(s).startswith("mode_stats=") for s in node.body):
             fit_if = node
     need(fit_if is not None, fn, "fitting branch", w)
     cond = _ns(fit_if.test)
@@ -54,6 +55,19 @@ def translate():
     need("labels=self.clusterer.predict(u)" in t and "ModeStatistics.from_particles(u,weights_trimmed,labels,dof_fallback=self.DOF_FALLBACK)" in t,
          fn, "labels = predict(training points)", w)
     need("u=self.state.get_history('u',flat=True)[trim_idx]" in t, fn, "training points are the trimmed pool", w)
+    # the predict-only branch: reuse the clustering only while it covers the trimmed pool, otherwise refit
+    reuse = [n for n in ast.walk(fn) if isinstance(n, ast.If) and not any(_ns(s) == "self.clusterer.fit(u,weights_trimmed)" for s in n.body)
+             and any(_ns(s) == "labels=self.clusterer.predict(u)" for s in n.body) and any(_ns(s).startswith("mode_stats=") for s in n.body)]
+    need(len(reuse) == 1, fn, "predict-only branch", w)
+    rb = [_ns(s) for s in reuse[0].body]
+    cover_if = [s for s in reuse[0].body if isinstance(s, ast.If)]
+    reuse_checked = (len(cover_if) == 1 and not cover_if[0].orelse
+                     and _ns(cover_if[0].test) in ("len(np.unique(labels))!=self.clusterer.n_clusters_",
+                                                   "len(np.unique(labels))<self.clusterer.n_clusters_")
+                     and [_ns(s) for s in cover_if[0].body] == ["self.clusterer.fit(u,weights_trimmed)", "labels=self.clusterer.predict(u)"]
+                     and rb.index("labels=self.clusterer.predict(u)") < reuse[0].body.index(cover_if[0])
+                     and rb[-1].startswith("mode_stats=ModeStatistics.from_particles(u,weights_trimmed,labels,"))
+    need(len(cover_if) <= 1, reuse[0], "unexpected control flow in the predict-only branch", w)
     mo = _ns(get_function(REPO / "tempest" / "modes.py", "ModeStatistics.from_particles"))
     need("unique_labels=np.unique(labels)" in mo and "forlabelinunique_labels:" in mo.replace("\n", "") and "idx_cluster=np.where(labels==label)[0]" in mo,
          fn, "modes per sorted unique label", "modes.py")
@@ -74,6 +88,7 @@ Definition assignments_are_predict_of_resampled_points : bool := true.
 Definition kernels_index_statistics_by_assignment : bool := true.
 Definition nonfinite_dof_replaced_by_fallback : bool := true.
 Definition trainer_and_resampler_share_one_clusterer : bool := true.
+Definition reuse_tests_coverage_and_refits : bool := {str(bool(reuse_checked)).lower()}.
 """
     write_if_changed(COQ / "Gen" / "Cluster.v", text)
 
@@ -126,6 +141,12 @@ def hooked_run(run, cfg, seed, what, resume_from=None, n_total=60, outdir=None):
                 problems.append(f"iteration {it}: mode {j} scale matrix not symmetric positive-definite")
             if not (np.isfinite(ms.degrees_of_freedom[j]) and ms.degrees_of_freedom[j] > 0):
                 problems.append(f"iteration {it}: mode {j} degrees of freedom {ms.degrees_of_freedom[j]}")
+        if K > 1:
+            # the label of an active particle is the cluster of that particle (prediction on its unit-cube coordinates)
+            own = np.asarray(s._core.trainer.clusterer.predict(np.asarray(k["u"])))
+            if own.shape == asg.shape and np.any(own != asg):
+                problems.append(f"iteration {it}: {int(np.sum(own != asg))} of {len(asg)} active particles carry a label that is not "
+                                f"the cluster their unit-cube position belongs to (mode not fitted from the particle's cluster)")
         if lab is not None:
             occ = sorted(set(int(v) for v in lab))
             Kfit = rec["K_fit"]
@@ -164,7 +185,8 @@ def sweep(run, tier, rng, work):
             run.fail("clustered-run-raises", f"run raised {type(e).__name__}: {e}", **what)
             continue
         for p in problems[:2]:
-            key = "assignment-without-mode" if "refers to no mode" in p else ("label-rank-mismatch" if "indexed by rank" in p else "mode-ill-formed")
+            key = "assignment-without-mode" if "refers to no mode" in p else ("label-rank-mismatch" if "indexed by rank" in p else
+                                                                              ("label-of-another-cluster" if "not the cluster" in p else "mode-ill-formed"))
             run.fail(key, p, **what)
         if outdir is not None:
             # resume from a checkpoint taken during annealing
@@ -221,6 +243,113 @@ def starved_pools(run, tier, rng):
             run.fail("assignment-without-mode", f"assignment {int(asg.max())} but only {ms.K} modes (model has {cl.n_clusters_} clusters)", **what)
 
 
+def reused_clustering(run, tier, rng):
+    """cluster_every = 2: the clustering fitted on a pool with several live modes is reused at the next iteration on a pool
+    in which one cluster keeps 0..3 particles of non-negligible weight. Trainer.run + Resampler.run; every active label must
+    index a well-formed mode whose location lies in the bounding box of the training points carrying that label."""
+    from tempest.state_manager import StateManager
+    from tempest.steps.train import Trainer
+    from tempest.steps.resample import Resampler
+    from tempest.cluster import HierarchicalGaussianMixture
+    from tempest.modes import ModeStatistics
+    from tempest.config import TRIM_ESS, TRIM_BINS, DOF_FALLBACK
+    layouts = 4 if tier == "quick" else 40
+    done = 0
+    tries = 0
+    while done < layouts and tries < 20 * layouts:
+        tries += 1
+        lseed = rng.randrange(2 ** 31)
+        nr = np.random.RandomState(lseed)
+        nb = rng.choice([2, 3, 4])
+        n_per = rng.choice([40, 60])
+        centres = nr.rand(nb, 2) * 0.7 + 0.15
+        u = np.clip(np.vstack([c + 0.025 * nr.randn(n_per, 2) for c in centres]), 0.001, 0.999)
+        n = len(u)
+        norm = bool(tries % 2)
+        resample = rng.choice(["syst", "mult"])
+
+        def build():
+            st = StateManager(2)
+            st.update_current({"u": u, "x": u.copy(), "logl": np.zeros(n), "beta": 0.0, "logz": 0.0, "iter": 1})
+            st.commit_current_to_history()
+            st.set_current("beta", 0.3)
+            st.set_current("iter", 2)
+            cl = HierarchicalGaussianMixture(n_init=1, max_iterations=1000, min_points=None, threshold_modifier=1.0,
+                                             covariance_type="full", verbose=False, normalize=norm)
+            tr = Trainer(state=st, clusterer=cl, cluster_every=2, clustering=True, TRIM_ESS=TRIM_ESS, TRIM_BINS=TRIM_BINS,
+                         DOF_FALLBACK=DOF_FALLBACK)
+            rs = Resampler(state=st, n_particles=32, resample=resample, clusterer=cl, clustering=True)
+            np.random.seed(lseed % 1000)
+            tr.run(np.ones(n) / n)
+            return st, cl, tr, rs
+        try:
+            st, cl, tr, rs = build()
+        except Exception as e:
+            run.fail("train-resample-raises", f"fitting iteration raised {type(e).__name__}: {e}", layout_seed=lseed)
+            continue
+        K0 = cl.n_clusters_
+        if K0 < 2:
+            continue
+        done += 1
+        pool_lab = cl.predict(u)
+        for c in range(K0):
+            for keep in (0, 1, 2, 3):
+                what = dict(probe="reused-clustering", layout_seed=lseed, blobs=nb, n_per_blob=n_per, normalize=norm, resample=resample,
+                            clusters_fitted=K0, starved_label=c, particles_kept=keep)
+                st, cl, tr, rs = build()
+                members = np.where(pool_lab == c)[0]
+                w = np.ones(n)
+                w[members[keep:]] = 1e-12
+                w /= w.sum()
+                st.set_current("beta", 0.6)
+                st.set_current("iter", 3)
+                rec = {}
+                orig_fp = ModeStatistics.from_particles.__func__
+
+                def fp(cls, uu, ww, ll, *a, **k):
+                    rec["u"], rec["labels"] = np.asarray(uu).copy(), np.asarray(ll).copy()
+                    return orig_fp(cls, uu, ww, ll, *a, **k)
+                ModeStatistics.from_particles = classmethod(fp)
+                try:
+                    ms = tr.run(w.copy())
+                    rs.run(w.copy())
+                except Exception as e:
+                    single = "labels" in rec and any(len(np.unique(rec["u"][rec["labels"] == k], axis=0)) == 1 for k in np.unique(rec["labels"]))
+                    if single and type(e).__name__ == "LinAlgError":
+                        run.fail("single-point-cluster-singular-scale", "a cluster whose trimmed training set is one distinct point makes "
+                                 f"ModeStatistics.from_particles raise LinAlgError: {e} (fit_mvstud solves with a zero scale matrix)", **what)
+                    else:
+                        run.fail("train-resample-raises", f"Trainer/Resampler raised {type(e).__name__}: {e}", **what)
+                    continue
+                finally:
+                    ModeStatistics.from_particles = classmethod(orig_fp)
+                asg = np.asarray(st.get_current("assignments"))
+                run.case(key=("reuse", lseed, c, keep), nontrivial=True)
+                run.count(f"reused clustering, starved cluster keeps {keep}")
+                if asg.min() < 0 or asg.max() >= ms.K:
+                    run.fail("assignment-without-mode", f"active labels {sorted(set(asg.tolist()))} but only {ms.K} modes "
+                             f"(model has {cl.n_clusters_} clusters)", **what)
+                    continue
+                for k in sorted(set(asg.tolist())):
+                    C = ms.covariances[k]
+                    if not (np.all(np.isfinite(ms.means[k])) and np.all(np.isfinite(C)) and np.allclose(C, C.T, rtol=1e-10, atol=1e-300)
+                            and np.min(np.linalg.eigvalsh((C + C.T) / 2)) > 0 and np.isfinite(ms.degrees_of_freedom[k])
+                            and ms.degrees_of_freedom[k] > 0):
+                        run.fail("mode-ill-formed", f"mode {k}: mean {ms.means[k]}, scale eigenvalues "
+                                 f"{np.linalg.eigvalsh((C + C.T) / 2)}, dof {ms.degrees_of_freedom[k]}", **what)
+                        break
+                    pts = rec["u"][rec["labels"] == k]
+                    if len(pts) == 0:
+                        run.fail("label-rank-mismatch", f"active label {k} has no training point in the trimmed pool", **what)
+                        break
+                    lo, hi = pts.min(axis=0) - 1e-9, pts.max(axis=0) + 1e-9
+                    if np.any(ms.means[k] < lo) or np.any(ms.means[k] > hi):
+                        run.fail("label-rank-mismatch", f"mode {k} has location {ms.means[k]} outside the bounding box [{lo}, {hi}] of "
+                                 f"the training points labelled {k}: it was not fitted from that cluster", **what)
+                        break
+    run.count(f"layouts with K>=2: {done} of {tries} tried")
+
+
 def main(tier, seed):
     run = Run(PID, tier, seed)
     run.rule = ("bimodal target; real runs over cluster_every in {1,2,3,5}, cluster caps {None,2,..}, normalize on/off, both "
@@ -244,6 +373,7 @@ def main(tier, seed):
     try:
         sweep(run, tier, rng, work)
         starved_pools(run, tier, rng)
+        reused_clustering(run, tier, rng)
     except Exception:
         import traceback
         run.broken.append(("harness-exception", traceback.format_exc()[-1500:]))
